@@ -391,7 +391,7 @@ for _q, _cls in (('mosromgr.moscollection.MosReader.from_string', _col.ReaderFro
 class MosObjectBody(Contract):
     """body proof of MosReader.mos_object for a reader built by from_string, one variant per message class;
     MosCollection.merge uses the caller-facing view (collection.ReaderMosObject)"""
-    props = ('C18', 'C09')
+    props = ('C18', 'C09', 'C13')
     opaque = True
 
     def entry(self, E):
@@ -405,6 +405,13 @@ class MosObjectBody(Contract):
             rd = SObj(E.repo.cls('MosReader'), st.new_obj(None))
             st.objs[rd.oid] = {'_message_id': SInt(E.W.fresh('mid', L.I)), '_ro_id': SStr(E.W.fresh('roid', Str)), '_mos_type': SCls(cls),
                                '_restore_fn': SFunc(fs, self_val=SCls(cls)), '_restore_args': STuple([s]), '$doc': s}
+            # fields that the real MosReader.__init__ sets to None beyond the five above (e.g. an empty cache slot)
+            import ast as _ast
+            for n in _ast.walk(E.repo.functions['mosromgr.moscollection.MosReader.__init__'].node):
+                if isinstance(n, _ast.Assign) and len(n.targets) == 1 and isinstance(n.targets[0], _ast.Attribute) \
+                        and isinstance(n.targets[0].value, _ast.Name) and n.targets[0].value.id == 'self' \
+                        and isinstance(n.value, _ast.Constant) and n.value.value is None:
+                    st.objs[rd.oid].setdefault(n.targets[0].attr, NONE)
             out.append((st, {'self': rd}))
         return out
 
@@ -414,12 +421,20 @@ class MosObjectBody(Contract):
         v = ex.value
         s = f['$doc']
         ok = isinstance(v, SObj) and v.cls is f['_mos_type'].cls
-        return [('C18+C09.restores_an_object_of_the_recorded_class_over_a_fresh_parse_of_the_same_document',
-                 A(z3.BoolVal(ok), wellformed(s.t), ex.st.fields(v)['_xml'].t == parse_root(s.t)) if ok else z3.BoolVal(False))]
+        out = [('C18+C09+C13.restores_an_object_of_the_recorded_class_over_a_fresh_parse_of_the_same_document',
+                A(z3.BoolVal(ok), wellformed(s.t), ex.st.fields(v)['_xml'].t == parse_root(s.t)) if ok else z3.BoolVal(False))]
+        # a reader hands out a new object on every access: it must not keep the restored object (or anything
+        # else it did not hold before) - two collections built from the same readers would share a running order
+        after = ex.st.fields(rd)
+        kept = [k for k, fv in after.items() if isinstance(fv, SObj) and isinstance(v, SObj) and fv.oid == v.oid]
+        changed = [k for k, fv in after.items() if not k.startswith('$') and (k not in f or f[k] is not fv)]
+        out.append(('C09+C13+C18.reader_keeps_no_reference_to_the_restored_object', z3.BoolVal(not kept)))
+        out.append(('C09+C13+C18.restoring_changes_no_field_of_the_reader', z3.BoolVal(not changed)))
+        return out
 
     def raises(self, cx, ex):
         s = cx.st.fields(cx.a['self'])['$doc']
-        return [('C18.restoring_fails_only_if_the_document_is_no_longer_well_formed[%s]' % ex.value.name(),
+        return [('C18+C09+C13.restoring_fails_only_if_the_document_is_no_longer_well_formed[%s]' % ex.value.name(),
                  A(z3.BoolVal(ex.value.name() == 'MosInvalidXML'), z3.Not(wellformed(s.t))))]
 
 
